@@ -80,7 +80,7 @@ def seek_linear(c):
     c.ensures(lambda: z3.And(z3.Or(c.result == 0, c.result < 0), c.result != c.E.TSK_ERR_SEEK_OUT_OF_BOUNDS))
 
 
-@contract("trees.c", "tsk_tree_seek", ["self", "x", "options"])
+@contract("trees.c", "tsk_tree_seek", ["self", "x", "options"], cct=0)
 def tree_seek(c):
     self_, x = c.arg("self"), c.arg("x")
     E = c.E
@@ -98,7 +98,7 @@ def tree_seek(c):
     c.assigns(self_)
 
 
-@contract("trees.c", "tsk_tree_seek_index", ["self", "tree", "options"])
+@contract("trees.c", "tsk_tree_seek_index", ["self", "tree", "options"], cct=0)
 def tree_seek_index(c):
     self_, tree = c.arg("self"), c.arg("tree")
     E = c.E
